@@ -39,6 +39,8 @@ package main
 import (
 	"bytes"
 	"fmt"
+	"os"
+	"path/filepath"
 	"sort"
 	"strconv"
 	"strings"
@@ -48,10 +50,38 @@ import (
 	"github.com/0chain/common/core/util"
 )
 
-const (
-	scCapPerKey = 200  // lru.New(200) in StateCache.commit
-	scMaxDepth  = 2000 // maxHisDepth / hashCache capacity in NewStateCache
+// The capacities of the tree under test: lru.New(n) of the per-key version maps in StateCache.commit, and maxHisDepth /
+// the hashCache capacity in NewStateCache. They are not exported by the package; the harness reads them from the table
+// go/extract/scfacts regenerates before every run (lean/Verif/Gen/StateCacheFacts.lean, relative to the working directory
+// bin/check starts the harness in, or $VERIF_SC_FACTS), so that the oracle, the finding matchers and the boundary
+// generators follow a change of the constants like the model driver does. Defaults: the values of /repo HEAD.
+var (
+	scCapPerKey = 200
+	scMaxDepth  = 2000
 )
+
+func init() {
+	path := os.Getenv("VERIF_SC_FACTS")
+	if path == "" {
+		path = filepath.Join("lean", "Verif", "Gen", "StateCacheFacts.lean")
+	}
+	data, err := os.ReadFile(path)
+	if err != nil {
+		return
+	}
+	for _, line := range strings.Split(string(data), "\n") {
+		var name string
+		var v int
+		if n, _ := fmt.Sscanf(line, "def %s : Nat := %d", &name, &v); n == 2 && v > 0 {
+			switch name {
+			case "capPerKey":
+				scCapPerKey = v
+			case "maxHisDepth":
+				scMaxDepth = v
+			}
+		}
+	}
+}
 
 // ---- value types ------------------------------------------------------------------------------------------
 
